@@ -78,11 +78,25 @@ def run(ck):
         ck.notes.append("this tree still has defect F1 (empty message -> UnboundLocalError, reported by C01): "
                         "empty messages are left out of this run")
     runs = []
-    for i in range(nlay):
-        kind = ("t2", "t2", "t1d", "t1s")[i % 4]
-        lay = layout_with_old(rng, kind, ck.thorough and rng.random() < 0.1, [0, 5, 200, 255, 300, lambda f: f - 4])
-        cap = lay["free"] - (4 if lay["free"] > 256 else 2)
-        n = rng.choice([0, 1, 2, 3, 254, 255, cap - 1, cap, cap, cap + 1, rng.randrange(0, max(1, cap + 1))])
+    from sims.t12_run import BOUNDARY_FREE
+    targets = [(k, t) for t in BOUNDARY_FREE for k in ("t2", "t1d") if not (k == "t1d" and t < 10)]
+    targets = targets * (8 if ck.thorough else 2)
+    for i in range(nlay + len(targets)):
+        if i >= nlay:
+            # exactly 2..5 / 253..261 free bytes behind the NDEF TLV: both sides of every capacity threshold
+            kind, tf = targets[i - nlay]
+            lay = layout_with_old(rng, kind, False, [0, 5, 254, lambda f: f - 4], target_free=tf)
+            ck.count("boundary layouts (free bytes 2..5, 253..261)")
+        else:
+            kind = ("t2", "t2", "t1d", "t1s")[i % 4]
+            lay = layout_with_old(rng, kind, ck.thorough and rng.random() < 0.1, [0, 5, 200, 255, 300, lambda f: f - 4])
+        # the capacity REPORTED by the code decides what the longest accepted message is: that one must stay inside
+        _, _, nd0 = read_line(kind, make_sim(lay))
+        cap = nd0.capacity if nd0 is not None else lay["free"] - (4 if lay["free"] > 256 else 2)
+        if i >= nlay:
+            n = rng.choice([cap, cap, cap - 1])
+        else:
+            n = rng.choice([0, 1, 2, 3, 254, 255, cap - 1, cap, cap, cap + 1, rng.randrange(0, max(1, cap + 1))])
         n = max(1 if f1 else 0, n)
         edge = n >= 255 and not lay["hdr3"]
         data = bytes(rng.randrange(256) for _ in range(n))
